@@ -387,6 +387,9 @@ IDIOMS = [
     "Where(ds, lambda {x}: (lambda {s}, {n}: Count(Where({s}, lambda {x2}: {x2} > {n})) > 0)(Select({x}.jets, lambda {x3}: {x3}.pt), {x}.x))",
     "Select(Select(ds, lambda {x}: (lambda {s}: ({s}, Select({s}, lambda {x2}: {x2}.pt)))({x}.jets)), lambda {x3}: Count({x3}[0]) + Count({x3}[1]))",
     "SelectMany(ds, lambda {x}: (lambda {s}: SelectMany({s}, lambda {x2}: Select({s}, lambda {x3}: {x2}.pt - {x3}.pt)))(Where({x}.jets, lambda {x4}: {x4}.eta > -2)))",
+    # a sequence-valued stage parameter (itself a filtered / projected stream) used three times
+    "Select(Select(ds, lambda {x}: Where(Select({x}.jets, lambda {x2}: {x2}.eta), lambda {x3}: {x3} >= {x}.x - 3)), lambda {s}: SelectMany(Select({s}, lambda {x4}: {x4}), lambda {n}: Where(Select({s}, lambda {x2}: First({s})), lambda {x3}: {n} <= {x3})))",
+    "Select(SelectMany(ds, lambda {x}: Select(Select({x}.jets, lambda {x2}: ({x}.x, {x2})), lambda {x3}: Where(Select({x}.jets, lambda {x4}: {x4}.eta), lambda {n}: {n} == {x3}[1].eta))), lambda {s}: Count(SelectMany(Select({s}, lambda {x2}: {x2}), lambda {x3}: Where(Select({s}, lambda {x4}: First({s})), lambda {n}: {x3} <= {n}))))",
     # a called lambda inside a called lambda, the inner one re-using a name the outer argument mentions
     "Select(ds, lambda {x}: (lambda {s}: (lambda {x2}: First(Select({s}, lambda {x3}: ({x3}.pt, {x3}.eta)))[0] + {x2})(1))({x}.jets))",
     "Select(ds, lambda {x}: (lambda {s}: (lambda {x2}: Count(Where(Select({s}, lambda {x3}: {x3}.pt), lambda {x4}: {x4} > {x2})))(1))({x}.jets))",
